@@ -38,7 +38,7 @@ RULE = ("one case = one operator (all its histories) or one function/prox call f
 ASSUMPTIONS = ["CPU/NumPy backend", "complex64 / real-dtype paths compared at 2e-5 (library runs them in single precision)",
                "an exception on a real-dtype input is tolerated (nothing silently lost)"]
 CHUNK = 4
-ALPHABET = ("a", "b", "r", "h", "n", "H", "c")   # c: apply a copy.deepcopy of the operator
+ALPHABET = ("a", "b", "r", "h", "n", "H", "c", "t", "s")   # c: apply a deepcopy; t: use a twin operator (same class, other arrays); s: apply A to an array it was built from
 
 
 GLOBAL_STATE_ORACLE = True     # the runner also compares NumPy's error state, print options and the warnings filters before/after each case
@@ -162,6 +162,13 @@ def run_op(case, seed):
                 V("built-from-array-mutated", tag, "%s: an array the operator was built from was modified" % tag)
                 return
 
+    _twin = {}
+
+    def twin_ref():
+        if "r" not in _twin:
+            _twin["r"] = dense.dense_linop(opcat.build(spec, seed + 1)) @ xa.ravel()
+        return _twin["r"]
+
     def run_history(word):
         del opcat.CREATED[:]
         A = opcat.build(spec, seed)
@@ -194,6 +201,25 @@ def run_op(case, seed):
                 elif ev == "n":
                     out = A.N(live["xa"])
                     ok, e = _close(out, refs["n"], 1e-9)
+                elif ev == "t":
+                    # a second operator of the same class built from OTHER arrays: two objects must not influence each
+                    # other (class-level attributes, module-level scratch space)
+                    Tw = opcat.build(spec, seed + 1)
+                    outT = Tw(live["xa"])
+                    okT, eT = _close(outT, twin_ref(), 1e-9)
+                    if not okT:
+                        V("determinism", when, "history %s: a twin operator (same spec, other arrays) gives a result %.3g away from "
+                          "its own first-visit result" % ("".join(word[:step + 1]), eT))
+                    del opcat.CREATED[len(created):]
+                    ok, e = True, 0.0
+                elif ev == "s":
+                    # aliasing: the operator applied to (a view of) an array it was built from
+                    ok, e = True, 0.0
+                    for arr, cp in created:
+                        if list(arr.shape) == ish and np.issubdtype(arr.dtype, np.number):
+                            out = A(arr)
+                            ok, e = _close(out, M @ cp.ravel().astype(complex), 1e-9)
+                            break
                 elif ev == "c":
                     import copy
                     try:
